@@ -40,7 +40,7 @@ class HenryGasSolubilityOptimization(OptimizationAbstract):
         self.__n_elements = int(self._config.population_size / self._config.n_clusters)
 
     def after_initialization(self):
-        self.__groups = self._generate_group_population(self._config.n_clusters, self.__n_elements, False)
+        self.__groups = self._generate_group_population(self._config.n_clusters, self.__n_elements)
         self.__p_best = [best_agent(group) for group in self.__groups]
 
     def optimization_step(self):
